@@ -108,6 +108,24 @@ def w_cov(case):
                      'underlying model evaluated per individual at vartheta_i (%s)'
                      % lab, 'expected': exp_ll, 'observed': got_ll,
                      'behaviour': 'll'})
+    # the transform with return_eta=True (what a hierarchical likelihood asks for):
+    # the underlying model's answer at vartheta_i, individual by individual
+    if case['zero'] != 'bad_later':
+        # (at values other than the individuals' own: a pooled dimension answers
+        # with vartheta_i whatever it is handed)
+        probe = obs * 1.37 + 0.2
+        exp_eta = np.empty((n_ids, d))
+        for i in range(n_ids):
+            exp_eta[i] = under.compute_individual_parameters(
+                th[i].flatten(), probe[i:i + 1], return_eta=True)[0]
+        got_eta = m.compute_individual_parameters(
+            top_arg(), probe.copy(), cov.copy(), return_eta=True)
+        ntr += 1 + n_ids
+        if not tol.allclose(np.asarray(got_eta, dtype=float), exp_eta):
+            viol.append({'sub': 'psi_eta', 'message': 'compute_individual_parameters'
+                         '(return_eta=True) differs from the underlying model at '
+                         'vartheta_i (%s)' % lab, 'expected': exp_eta,
+                         'observed': got_eta, 'behaviour': 'psi'})
     if case['zero'] == 'bad_later':
         # outside the domain for the last individual only: the per-individual sum
         # decides (-inf as soon as one individual's scale is not positive); the
@@ -261,7 +279,62 @@ def w_linear(case):
     return {'transitions': 2, 'outcome': tol.rnd(got), 'violations': viol}
 
 
-WORKERS = {'selections': w_cov, 'histories': w_cov, 'linear': w_linear}
+def w_composed(case):
+    """Several covariate sub-models in one composition: each one is shifted by ITS
+    columns of the covariate matrix, in every entry point."""
+    spec, n_ids = case['spec'], case['n_ids']
+    m = popbuild.build(spec, n_ids)
+    top = np.array(case['top'], dtype=float)
+    cov = np.array(case['cov'], dtype=float)
+    eta = np.array(case['eta'], dtype=float).reshape(n_ids, rp.n_dim(spec))
+    lab = popbuild.label(spec)
+    viol = []
+    e_psi = np.real(rp.psi_of(spec, top, eta, cov))
+    g_psi = np.asarray(m.compute_individual_parameters(top, eta.copy(),
+                                                       covariates=cov.copy()))
+    if g_psi.shape != e_psi.shape or not tol.allclose(g_psi, e_psi):
+        viol.append({'sub': 'comp_psi', 'message': 'individual parameters of a '
+                     'composition of covariate models are not each sub-model\'s '
+                     'transform at its own covariates (%s)' % lab,
+                     'expected': e_psi, 'observed': g_psi, 'behaviour': 'comp_psi'})
+    obs = np.array(case['obs'], dtype=float).reshape(n_ids, rp.n_dim(spec))
+    e_ll = float(np.real(rp.logpop(spec, top, obs, cov)))
+    g_ll = float(m.compute_log_likelihood(top, obs.copy(), covariates=cov.copy()))
+    s_ll = m.compute_sensitivities(top, obs.copy(), covariates=cov.copy())[0]
+    if not (tol.close(g_ll, e_ll) and tol.close(s_ll, e_ll)):
+        viol.append({'sub': 'comp_ll', 'message': 'log-likelihood of a composition '
+                     'of covariate models is not the sum of the sub-models\' '
+                     'densities at their own covariates (%s)' % lab,
+                     'expected': e_ll, 'observed': [g_ll, s_ll],
+                     'behaviour': 'comp_ll'})
+    # one covariate column moved: only the sub-model reading it responds
+    ncs = [rp.n_cov(p) for p in spec['parts']]
+    dims = [rp.n_dim(p) for p in spec['parts']]
+    col0 = 0
+    for j, nc in enumerate(ncs):
+        for cc in range(col0, col0 + nc):
+            cov2 = cov.copy()
+            cov2[:, cc] += 0.37
+            p2 = np.asarray(m.compute_individual_parameters(
+                top, eta.copy(), covariates=cov2))
+            d0 = sum(dims[:j])
+            moved = np.abs(p2 - g_psi) > 1e-12
+            moved[:, d0:d0 + dims[j]] = False
+            if np.any(moved):
+                viol.append({'sub': 'comp_cols', 'message': 'covariate column %d '
+                             'moves individual parameters of another sub-model '
+                             '(%s)' % (cc, lab), 'expected': 'no change outside '
+                             'dimensions %d..%d' % (d0, d0 + dims[j] - 1),
+                             'observed': np.argwhere(moved),
+                             'behaviour': 'comp_cols'})
+                break
+        col0 += nc
+    return {'transitions': 4 + sum(ncs), 'outcome': tol.rnd([g_psi, g_ll], 9),
+            'violations': viol}
+
+
+WORKERS = {'selections': w_cov, 'histories': w_cov, 'linear': w_linear,
+           'composed': w_composed}
 
 
 def selections(ppd, d):
@@ -369,6 +442,27 @@ def build(tier, seed):
                 history=[['dims', ['a', 'b']], ['sel', s2],
                          ['covnames', ['age', 'w']]],
                 dim_names=['a', 'b'], cov_names=['age', 'w']))
+    # names given and taken back again (None = back to the defaults), in every
+    # position relative to the selection
+    for k in ('G', 'LNnc', 'P'):
+        inner = popbuild.elem(k, 2)
+        ppd = rp.per_dim(inner)
+        sels = [s for f, s in selections(ppd, 2) if f != 'dup'][::3]
+        for s2 in sels:
+            for h_, dn_, cn_ in (
+                    ([['covnames', ['age', 'w']], ['covnames', None]], None, None),
+                    ([['covnames', ['age', 'w']], ['sel', s2], ['covnames', None]],
+                     None, None),
+                    ([['sel', s2], ['covnames', ['age', 'w']], ['covnames', None]],
+                     None, None),
+                    ([['sel', s2], ['dims', ['a', 'b']], ['dims', None]], None, None),
+                    ([['dims', ['a', 'b']], ['covnames', ['age', 'w']],
+                      ['sel', s2], ['covnames', None]], ['a', 'b'], None),
+                    ([['covnames', ['age', 'w']], ['dims', ['a', 'b']],
+                      ['sel', s2], ['dims', None]], None, ['age', 'w'])):
+                final_sel = s2 if any(o[0] == 'sel' for o in h_) else None
+                hist.append(make_case(inner, 2, final_sel, 2, seed, history=h_,
+                                      dim_names=dn_, cov_names=cn_))
     # LinearCovariateModel alone
     for ppd, d in ((2, 1), (2, 2), (1, 2), (2, 3)):
         for n_cov in (1, 2):
@@ -393,8 +487,33 @@ def build(tier, seed):
                             'pop': vals.reals('c07.lp', ppd * d, 0.5, 3, seed),
                             'cov': vals.reals('c07.lc', n_ids * n_cov, 0.1, 2,
                                               seed)})
+    # compositions of two or three covariate sub-models (and plain ones in between)
+    comp = []
+    ckinds = ['G', 'Gnc', 'LNnc', 'P', 'TG']
+    for a, b in itertools.product(ckinds, repeat=2):
+        for nca, ncb in ((1, 1), (1, 2), (2, 1)):
+            for mid in (None, 'P', 'G'):
+                parts = [rp.Cov(popbuild.elem(a, 1), nca)]
+                if mid:
+                    parts.append(popbuild.elem(mid, 1))
+                parts.append(rp.Cov(popbuild.elem(b, 1), ncb))
+                if tier == 'quick' and mid == 'G' and (nca, ncb) != (1, 2):
+                    continue
+                spec = rp.Comp(parts)
+                for n_ids in (1, 2, 3) if tier == 'thorough' else (2,):
+                    top = popvals.top_values(spec, n_ids, seed, positive=True)
+                    cov = popvals.covariates(spec, n_ids, seed)
+                    obs = popvals.obs_values(spec, top, n_ids, cov, seed,
+                                             positive=True)
+                    comp.append({'spec': spec, 'n_ids': n_ids, 'top': list(top),
+                                 'cov': cov.tolist(), 'obs': obs.flatten().tolist(),
+                                 'eta': vals.reals('c07.ceta', n_ids * rp.n_dim(spec),
+                                                   0.3, 1.4, seed)})
     return {
         'parts': [
+            Part('composed', comp, w_composed,
+                 'compositions of two covariate sub-models reading different '
+                 'covariate columns: transform, density, column-wise response'),
             Part('selections', cases, w_cov,
                  'underlying x n_dim x n_cov x every selection x zero patterns'),
             Part('histories', hist, w_cov,
